@@ -19,7 +19,7 @@ def run(ctx):
     if not ok:
         ctx.broken_build("harness-build(-tags verif) against current /repo tree", log)
     thorough = ctx.tier == "thorough"
-    nrand, maxn, shards = (6000, 4, 16) if thorough else (1500, 3, 4)
+    nrand, maxn, shards = (6000, 4, 16) if thorough else (4000, 3, 4)
     stats, cases, bad_model, bad_mon, f18 = {}, [], [], [], []
     evaluated = False
     if ok:
